@@ -386,3 +386,161 @@ Theorem C02_lib_src_final_output_closed : forall p, PlatformOK p -> forall fuel 
   = GenLibLoopsP.res_map (lib_of_out p) (final_output p h).
 Proof. exact final_output_src. Qed.
 Print Assumptions C02_lib_src_final_output_closed.
+
+(* ---- the model against the source text: Hasher::update_with_join / Hasher::update ------------------------------
+   gen/GenLibWide.v also holds the text of Hasher::update_with_join and Hasher::update (= update_with_join::<SerialJoin>),
+   translated statement by statement (tools/gen_coq.py gen_lib_wide): the offset check against hazmat::max_subtree_len
+   (`if let Some(max) = ..` is a match on the formula rs_max_subtree_len), the "finish the partial chunk" prefix with
+   its nested `return self` (an `early : option Hasher` component of the two `if`s, then `match early`), the
+   `while input.len() > CHUNK_LEN` subtree loop (lib_Hasher_update_with_join_loop2) with the shrink loop
+   `while (subtree_len - 1) as u64 & count_so_far != 0 { subtree_len /= 2 }` INSIDE it (.._loop1), the single-chunk /
+   parent-node arms with their push_cv calls, the counter update, and the trailing chunk_state.update + merge_cv_stack.
+   Each slice index has its bounds assert; the Panic codes are the ones of Model/RsHasher.v (1407 is the source's
+   debug_assert_eq!(CHUNK_LEN.count_ones(), 1), which is the constant true).  The translated functions EQUAL the models
+   with the translation's single fuel (update_loop_with / hasher_update_with, defining equations below) on every
+   hasher of the declared shape, every input below 2^64 bytes and every fuel; those refine Model/RsHasher.v's
+   update_loop / hasher_update as soon as the fuel covers the input.  Proofs in Proofs/GenLibWideP.v. *)
+From V Require Import Base.Slice gen.GenLibWide Model.RsWide Proofs.GenLibWideP.
+
+Theorem C02_lib_src_update_loop_with_def : forall fuel p h input,
+  update_loop_with fuel p h input =
+  if nlen input <=? rs_CHUNK_LEN then Ok (h, input)
+  else match fuel with
+  | O => OutOfFuel
+  | S fuel' =>
+      let cs := h_cs h in
+      c <- cs_count cs ;;
+      assert! (c =? 0) code 1401 ;;
+      subtree_len <- rs_largest_power_of_two_leq (nlen input) ;;
+      count_so_far <- rs_count_so_far (cs_ctr cs) ;;
+      subtree_len <- shrink_loop fuel' subtree_len count_so_far ;;
+      subtree_chunks <- rs_subtree_chunks subtree_len ;;
+      assert! (subtree_len <=? nlen input) code 52 ;;
+      h <- (if subtree_len <=? rs_CHUNK_LEN then
+              assert! (subtree_len =? rs_CHUNK_LEN) code 1402 ;;
+              cs1 <- cs_update_with fuel' p (cs_new (h_key h) (cs_ctr cs) (cs_flags cs)) (firstn (N.to_nat subtree_len) input) ;;
+              push_cv_with fuel' p h (out_chaining_value p (cs_output cs1)) (cs_ctr cs)
+            else
+              cv_pair <- compress_subtree_to_parent_node_with fuel' p (firstn (N.to_nat subtree_len) input) (h_key h)
+                           (cs_ctr cs) (cs_flags cs) ;;
+              assert! (64 <=? nlen cv_pair) code 54 ;;
+              h <- push_cv_with fuel' p h (firstn 32 cv_pair) (cs_ctr cs) ;;
+              rc <- rs_right_cv_counter (cs_ctr cs) subtree_chunks ;;
+              push_cv_with fuel' p h (firstn 32 (skipn 32 cv_pair)) rc) ;;
+      ctr' <- mi_add 64 (cs_ctr cs) subtree_chunks ;;
+      let cs' := mkCS (cs_cv cs) ctr' (cs_buf cs) (cs_buf_len cs) (cs_blocks cs) (cs_flags cs) in
+      update_loop_with fuel' p (with_cs h cs') (skipn (N.to_nat subtree_len) input)
+  end.
+Proof. intros [|fuel]; reflexivity. Qed.
+Print Assumptions C02_lib_src_update_loop_with_def.
+
+Theorem C02_lib_src_hasher_update_with_def : forall fuel p h input,
+  hasher_update_with fuel p h input =
+  (input_offset <- rs_input_offset (h_init h) ;;
+   msl <- rs_max_subtree_len input_offset ;;
+   _ <- (match msl with
+         | Some max =>
+             cnt <- hasher_count h ;;
+             remaining <- mi_sub 64 max cnt ;;
+             assert! (nlen input <=? remaining) code 21 ;;
+             Ok tt
+         | None => Ok tt
+         end) ;;
+   c <- cs_count (h_cs h) ;;
+   r <- (if 0 <? c then
+           want <- mi_sub 64 rs_CHUNK_LEN c ;;
+           let take := N.min want (nlen input) in
+           cs <- cs_update_with fuel p (h_cs h) (firstn (N.to_nat take) input) ;;
+           let input := skipn (N.to_nat take) input in
+           if negb (nlen input =? 0) then
+             c' <- cs_count cs ;;
+             assert! (c' =? rs_CHUNK_LEN) code 1400 ;;
+             let chunk_cv := out_chaining_value p (cs_output cs) in
+             h <- push_cv_with fuel p (with_cs h cs) chunk_cv (cs_ctr cs) ;;
+             ctr' <- mi_add 64 (cs_ctr cs) 1 ;;
+             Ok (with_cs h (cs_new (h_key h) ctr' (cs_flags cs)), input, false)
+           else Ok (with_cs h cs, input, true)
+         else Ok (h, input, false)) ;;
+   let '(h, input, done) := r in
+   if done then Ok h else
+   ('(h, input) <- update_loop_with fuel p h input ;;
+    assert! (nlen input <=? rs_CHUNK_LEN) code 1403 ;;
+    if negb (nlen input =? 0) then
+      cs <- cs_update_with fuel p (h_cs h) input ;;
+      merge_cv_stack_with fuel p (with_cs h cs) (cs_ctr cs)
+    else Ok h)).
+Proof. reflexivity. Qed.
+Print Assumptions C02_lib_src_hasher_update_with_def.
+
+(* the shrink loop IS the model's shrink_loop, at every fuel *)
+Theorem C02_lib_src_shrink_loop : forall pno cvf mx mo hm self input input_offset fuel subtree_len count_so_far,
+  lib_Hasher_update_with_join_loop1 pno cvf mx mo hm fuel self input input_offset subtree_len count_so_far
+  = shrink_loop fuel subtree_len count_so_far.
+Proof. intros. apply shrink_loop_eq. Qed.
+Print Assumptions C02_lib_src_shrink_loop.
+
+(* the subtree loop, at every fuel *)
+Theorem C02_lib_src_update_loop : forall p, plat_wf p -> forall input_offset fuel h input,
+  length (h_key h) = 8%nat -> nlen input < 2 ^ 64 -> N.of_nat (length (h_stack h)) <= rs_cv_stack_cap ->
+  lib_Hasher_update_with_join_loop2 m_parent_node_output m_Output_chaining_value (p_max_degree p) (max_degree_or_2 p)
+    m_hash_many fuel (lib_of_hasher p h) input input_offset
+  = GenLibLoopsP.res_map (fun r => (lib_of_hasher p (fst r), snd r)) (update_loop_with fuel p h input).
+Proof. exact update_loop_eq2. Qed.
+Print Assumptions C02_lib_src_update_loop.
+
+Theorem C02_lib_src_update_with_join : forall p, plat_wf p -> forall fuel h input,
+  length (h_key h) = 8%nat -> nlen input < 2 ^ 64 -> N.of_nat (length (h_stack h)) <= rs_cv_stack_cap ->
+  cs_blocks (h_cs h) < 2 ^ 8 -> cs_buf_len (h_cs h) < 2 ^ 8 ->
+  lib_Hasher_update_with_join m_parent_node_output m_Output_chaining_value (p_max_degree p) (max_degree_or_2 p)
+    m_hash_many fuel (lib_of_hasher p h) input
+  = GenLibLoopsP.res_map (lib_of_hasher p) (hasher_update_with fuel p h input).
+Proof. exact lib_Hasher_update_with_join_eq. Qed.
+Print Assumptions C02_lib_src_update_with_join.
+
+Theorem C02_lib_src_update : forall p, plat_wf p -> forall fuel h input,
+  length (h_key h) = 8%nat -> nlen input < 2 ^ 64 -> N.of_nat (length (h_stack h)) <= rs_cv_stack_cap ->
+  cs_blocks (h_cs h) < 2 ^ 8 -> cs_buf_len (h_cs h) < 2 ^ 8 ->
+  lib_Hasher_update m_parent_node_output m_Output_chaining_value (p_max_degree p) (max_degree_or_2 p)
+    m_hash_many fuel (lib_of_hasher p h) input
+  = GenLibLoopsP.res_map (lib_of_hasher p) (hasher_update_with fuel p h input).
+Proof. exact lib_Hasher_update_eq. Qed.
+Print Assumptions C02_lib_src_update.
+
+(* enough fuel: one unit per iteration of the subtree loop plus 81 for what an iteration calls (64 levels of
+   compress_subtree_wide / 64 merges / 64 halvings, 17 blocks of a chunk) *)
+Theorem C02_lib_src_update_loop_enough : forall p f fuel h input, (f + 81 <= fuel)%nat ->
+  refines (update_loop f p h input) (update_loop_with fuel p h input).
+Proof. exact update_loop_with_refines. Qed.
+Print Assumptions C02_lib_src_update_loop_enough.
+
+Theorem C02_lib_src_hasher_update_enough : forall p fuel h input, (S (Nat.div (length input) 1024) + 81 <= fuel)%nat ->
+  refines (hasher_update p h input) (hasher_update_with fuel p h input).
+Proof. exact hasher_update_with_refines. Qed.
+Print Assumptions C02_lib_src_hasher_update_enough.
+
+(* hence: whenever the model's update does not run out of its own fuel, the translated Hasher::update IS the model's *)
+Theorem C02_lib_src_update_model : forall p, plat_wf p -> forall fuel h input,
+  length (h_key h) = 8%nat -> nlen input < 2 ^ 64 -> N.of_nat (length (h_stack h)) <= rs_cv_stack_cap ->
+  cs_blocks (h_cs h) < 2 ^ 8 -> cs_buf_len (h_cs h) < 2 ^ 8 ->
+  (S (Nat.div (length input) 1024) + 81 <= fuel)%nat -> hasher_update p h input <> OutOfFuel ->
+  lib_Hasher_update m_parent_node_output m_Output_chaining_value (p_max_degree p) (max_degree_or_2 p)
+    m_hash_many fuel (lib_of_hasher p h) input
+  = GenLibLoopsP.res_map (lib_of_hasher p) (hasher_update p h input).
+Proof.
+  intros p WF fuel h input Hk Hin Hst Hb Hbl HF HN.
+  rewrite (lib_Hasher_update_eq p WF fuel h input Hk Hin Hst Hb Hbl).
+  rewrite (refines_ok _ _ (hasher_update_with_refines p fuel h input HF) HN). reflexivity.
+Qed.
+Print Assumptions C02_lib_src_update_model.
+
+(* non-vacuity: the translated update on a concrete history against the model *)
+Example C02_lib_src_update_nonvacuous :
+  let p := sim_platform 4 16 in
+  let h1 := match hasher_update p (new_internal IV 0) (map N.of_nat (seq 0 100)) with Ok h => h | _ => new_internal IV 0 end in
+  let b := repeat 7 5000 in
+  is_ok (hasher_update p h1 b) = true /\ cs_buf_len (h_cs h1) = 36 /\
+  GenLibLoopsP.res_map hasher_of_lib
+    (lib_Hasher_update m_parent_node_output m_Output_chaining_value (p_max_degree p) (max_degree_or_2 p) m_hash_many 100
+       (lib_of_hasher p h1) b) = hasher_update p h1 b.
+Proof. vm_compute. repeat split. Qed.
+Print Assumptions C02_lib_src_update_nonvacuous.
